@@ -592,7 +592,7 @@ pub fn run(ctx: &Ctx) -> PropertyReport {
     rep.assume("docs/attributes.md fixes no entry order; the empty map is zero bytes (stated by the property, the document is silent)");
     let sub = crate::engine::replay_subcheck_or_all(ctx);
     if sub.runs("blobs") {
-        let cases = ctx.cfg.cases(200_000, 3_000_000);
+        let cases = ctx.cfg.cases(200_000, 15_000_000);
         let mut r = ctx.run_prop("blobs", cases, || attr_case(12), body);
         for l in ["empty_map", "empty_name", "nonfinite_float", "general_matrix", "near_basis_matrix", "basis_rotation", "empty_sequence", "non_utf8_bytes", "font_with_cached_face", "string_attribute", "enum_item", "foreign_order_shuffled"] {
             r.floor(l, cases / 500);
@@ -600,18 +600,18 @@ pub fn run(ctx: &Ctx) -> PropertyReport {
         rep.push(r);
     }
     if sub.runs("file-blobs") {
-        let cases = ctx.cfg.cases(20_000, 300_000);
+        let cases = ctx.cfg.cases(20_000, 2_000_000);
         rep.push(ctx.run_prop("file-blobs", cases, || attr_case(8), file_blob_body));
     }
     if sub.runs("sinks") {
-        let cases = ctx.cfg.cases(40_000, 800_000);
+        let cases = ctx.cfg.cases(40_000, 4_000_000);
         let strat = || (attr_case(8), prop_oneof![2 => 1u8..4, 1 => 4u8..=255], any::<u16>()).prop_map(|(attrs, max_write, fail_at)| SinkCase { attrs, max_write, fail_at });
         let mut r = ctx.run_prop("sinks", cases, strat, sink_body);
         r.floor("sink_failure_injected", cases / 4);
         rep.push(r);
     }
     if sub.runs("map-history") {
-        let cases = ctx.cfg.cases(60_000, 1_500_000);
+        let cases = ctx.cfg.cases(60_000, 8_000_000);
         let mut r = ctx.run_prop("map-history", cases, map_history_strategy, map_history_body);
         r.floor("edited_after_an_encode", cases / 10);
         r.floor("encoded_twice", cases / 10);
